@@ -4,7 +4,7 @@
 //! finding: property=C14 sig=<signature> witness=findings/C14/x.json gate=<feature|-> :: <what fails>
 //! fixed:   property=C30 <commit> witness=findings/C30/x.json :: <what failed>
 //! ```
-//! `sig` contains no whitespace; a trailing `*` makes it a prefix pattern.
+//! `sig` contains no whitespace; `*` in it matches any run of characters.
 
 use std::path::Path;
 
@@ -87,11 +87,7 @@ impl Findings {
         if f.sig.is_empty() {
             return false;
         }
-        if let Some(p) = f.sig.strip_suffix('*') {
-            sig.starts_with(p)
-        } else {
-            f.sig == sig
-        }
+        glob(&f.sig, sig)
     }
 
     /// open finding of `prop` whose signature matches
@@ -118,4 +114,29 @@ impl Findings {
         v.dedup();
         v
     }
+}
+
+/// `*` matches any (possibly empty) run of characters; everything else is literal.
+pub fn glob(pat: &str, text: &str) -> bool {
+    let parts: Vec<&str> = pat.split('*').collect();
+    if parts.len() == 1 {
+        return pat == text;
+    }
+    let mut pos = 0usize;
+    for (i, part) in parts.iter().enumerate() {
+        if i == 0 {
+            if !text.starts_with(part) {
+                return false;
+            }
+            pos = part.len();
+        } else if i == parts.len() - 1 {
+            return text.len() >= pos + part.len() && text[pos..].ends_with(part);
+        } else {
+            match text[pos..].find(part) {
+                Some(j) => pos += j + part.len(),
+                None => return false,
+            }
+        }
+    }
+    true
 }
